@@ -239,39 +239,93 @@ func (w *wireCtx) classifyEmitters() {
 		w.r.Fatal("anchor: encoder.add/addString/addQuoted not found")
 		return
 	}
-	// leaf classes
-	for name, fd := range w.methods {
+	// leaf classes; a method that writes through another encoder method (addLiteral(lit) →
+	// add([]byte(lit))) takes over that method's kinds, with "what the parameter holds" replaced
+	// by what is passed at the call
+	kindsMemo := map[string][]string{}
+	var kindsOf func(name string, depth int) []string
+	kindsOf = func(name string, depth int) []string {
+		if k, ok := kindsMemo[name]; ok {
+			return k
+		}
+		fd := w.methods[name]
+		if fd == nil || depth > 3 {
+			return nil
+		}
+		kindsMemo[name] = nil
 		var kinds []string
+		classify := func(prim string, k, d string) string {
+			switch prim {
+			case "add":
+				if k == "const" {
+					if isJSONStructural(d) {
+						return "structural:" + d
+					}
+					return "constlit:" + d
+				}
+				return k
+			case "addQuoted":
+				if k == "const" {
+					return "quoted-const:" + d
+				}
+				return "quoted-" + k
+			}
+			return k
+		}
+		argKindAny := func(in *ast.FuncDecl, arg ast.Expr) (string, string) {
+			if bt, isB := w.info.TypeOf(arg).Underlying().(*types.Basic); isB && bt.Info()&types.IsString != 0 {
+				if s, isC := core.ConstString(w.info, arg); isC {
+					return "const", s
+				}
+				if id, ok := core.Unparen(arg).(*ast.Ident); ok {
+					for _, f := range in.Type.Params.List {
+						for _, n := range f.Names {
+							if w.info.Defs[n] == w.info.Uses[id] {
+								return "param", id.Name
+							}
+						}
+					}
+				}
+				return w.strKind(in, arg)
+			}
+			return w.argKind(in, arg)
+		}
 		ast.Inspect(fd.Body, func(n ast.Node) bool {
 			c, ok := n.(*ast.CallExpr)
 			if !ok {
 				return true
 			}
-			switch w.encCall(c) {
-			case "add":
+			switch m := w.encCall(c); m {
+			case "":
+			case "add", "addQuoted":
 				k, d := w.argKind(fd, c.Args[0])
-				if k == "const" {
-					if isJSONStructural(d) {
-						kinds = append(kinds, "structural:"+d)
-					} else {
-						kinds = append(kinds, "constlit:"+d)
-					}
-				} else {
-					kinds = append(kinds, k)
-				}
-			case "addQuoted":
-				k, d := w.argKind(fd, c.Args[0])
-				if k == "const" {
-					kinds = append(kinds, "quoted-const:"+d)
-				} else {
-					kinds = append(kinds, "quoted-"+k)
-				}
+				kinds = append(kinds, classify(m, k, d))
 			case "addString":
 				kinds = append(kinds, "addString")
+			default:
+				// another encoder method that is itself a plain writer of its first parameter
+				if m == name || w.methods[m] == nil || len(c.Args) == 0 || isPrimitiveEmitter(m) {
+					break
+				}
+				for _, hk := range kindsOf(m, depth+1) {
+					switch hk {
+					case "param", "quoted-param":
+						prim := "add"
+						if hk == "quoted-param" {
+							prim = "addQuoted"
+						}
+						k, d := argKindAny(fd, c.Args[0])
+						kinds = append(kinds, classify(prim, k, d))
+					}
+				}
 			}
 			return true
 		})
-		w.class[name] = summarise(name, kinds)
+		kindsMemo[name] = kinds
+		return kinds
+	}
+	for name := range w.methods {
+		w.class[name] = summarise(name, kindsOf(name, 0))
 	}
 }
 
@@ -394,7 +448,7 @@ func (w *wireCtx) ruleW5() {
 			return true
 		})
 	}
-	r.Floor("R-WIRE/W5", 12, "add/addQuoted call sites in encoder.go + encodeAny splice")
+	r.Floor("R-WIRE/W5", 6, "add/addQuoted call sites of the encoder (structural constants, numbers, the quoted form, the escaped string, the Any splice); helpers that write a parameter count once")
 }
 
 // paramSitesOK: fd hands its parameter to add/addQuoted; every call site of fd
@@ -438,6 +492,13 @@ func (w *wireCtx) paramSitesOK(fd *ast.FuncDecl, param, prim string, depth int) 
 			sites++
 			arg := c.Args[idx]
 			k, d := w.argKind(caller, arg)
+			if bt, isB := w.info.TypeOf(arg).Underlying().(*types.Basic); isB && bt.Info()&types.IsString != 0 {
+				if s, isC := core.ConstString(w.info, arg); isC {
+					k, d = "const", s
+				} else {
+					k, d = w.strKind(caller, arg) // the helper converts the string to bytes itself
+				}
+			}
 			switch {
 			case k == "const" && prim == "add", k == "num", k == "float", k == "escaped" && prim == "add":
 			case k == "const" && prim == "addQuoted" && !strings.ContainsAny(d, "\"\\") && !hasCtl(d):
@@ -647,8 +708,7 @@ func (w *wireCtx) ruleW1() {
 		return
 	}
 	handled := map[string]bool{}
-	for _, cl := range ts.Body.List {
-		cc := cl.(*ast.CaseClause)
+	for _, cc := range w.scalarCases(fd) {
 		for _, te := range cc.List {
 			tname := core.TypeStr(w.info.TypeOf(te))
 			handled[tname] = true
@@ -714,6 +774,70 @@ func (w *wireCtx) ruleW1() {
 	r.Floor("R-WIRE/W1", 20, "12 cases + 12 produced types")
 }
 
+// scalarCases: the clauses of the type switch(es) by which encodeScalarField
+// dispatches on the Go value — its own, and those of helpers it hands the value
+// to (a switch over an empty-interface parameter of a same-package function
+// called from it with an empty-interface argument).
+func (w *wireCtx) scalarCases(fd *ast.FuncDecl) []*ast.CaseClause {
+	isAny := func(t types.Type) bool {
+		it, ok := t.Underlying().(*types.Interface)
+		return ok && it.NumMethods() == 0
+	}
+	var out []*ast.CaseClause
+	collect := func(d *ast.FuncDecl) {
+		ast.Inspect(d.Body, func(n ast.Node) bool {
+			ts, ok := n.(*ast.TypeSwitchStmt)
+			if !ok {
+				return true
+			}
+			var subj ast.Expr
+			switch a := ts.Assign.(type) {
+			case *ast.AssignStmt:
+				if len(a.Rhs) == 1 {
+					if ta, ok := a.Rhs[0].(*ast.TypeAssertExpr); ok {
+						subj = ta.X
+					}
+				}
+			case *ast.ExprStmt:
+				if ta, ok := a.X.(*ast.TypeAssertExpr); ok {
+					subj = ta.X
+				}
+			}
+			if subj == nil || !isAny(w.info.TypeOf(subj)) {
+				return true
+			}
+			for _, cl := range ts.Body.List {
+				out = append(out, cl.(*ast.CaseClause))
+			}
+			return true
+		})
+	}
+	collect(fd)
+	seen := map[*ast.FuncDecl]bool{fd: true}
+	ast.Inspect(fd.Body, func(n ast.Node) bool {
+		c, ok := n.(*ast.CallExpr)
+		if !ok {
+			return true
+		}
+		fn := core.CalleeFunc(w.info, c)
+		if fn == nil || fn.Pkg() != w.pk.Types {
+			return true
+		}
+		hands := false
+		for _, a := range c.Args {
+			if t := w.info.TypeOf(a); t != nil && isAny(t) {
+				hands = true
+			}
+		}
+		if cd := core.DeclOf(w.pk, fn.Origin()); hands && cd != nil && cd.Body != nil && !seen[cd] {
+			seen[cd] = true
+			collect(cd)
+		}
+		return true
+	})
+	return out
+}
+
 // W2: constants resolved by object identity.
 func (w *wireCtx) ruleW2() {
 	r := w.r
@@ -722,7 +846,7 @@ func (w *wireCtx) ruleW2() {
 	if fd == nil {
 		return
 	}
-	ast.Inspect(fd.Body, func(n ast.Node) bool {
+	ast.Inspect(core.TreeBody(w.pk, fd), func(n ast.Node) bool {
 		c, ok := n.(*ast.CallExpr)
 		if !ok {
 			return true
@@ -880,17 +1004,35 @@ func (w *wireCtx) ruleW4() {
 				return true
 			}
 			o := r.Add("R-WIRE/W4", "encoder."+name+" | element separator", fl.Pos(), "separator idiom of the element callback")
-			if len(fl.Body.List) >= 2 {
-				ifs, ok1 := fl.Body.List[0].(*ast.IfStmt)
-				as, ok2 := fl.Body.List[1].(*ast.AssignStmt)
-				if ok1 && ok2 && ifs.Else == nil && len(ifs.Body.List) == 1 {
-					if u, ok := core.Unparen(ifs.Cond).(*ast.UnaryExpr); ok && u.Op == token.NOT {
-						if es, ok := ifs.Body.List[0].(*ast.ExprStmt); ok {
-							if c, ok := es.X.(*ast.CallExpr); ok && w.encCall(c) == "fieldSep" && len(as.Lhs) == 1 && core.ExprStr(as.Lhs[0]) == core.ExprStr(u.X) && core.ExprStr(as.Rhs[0]) == "false" {
-								// the flag must start true
-								if w.flagStartsTrue(fd, u.X) {
-									o.Auto("`if !%s { fieldSep() }; %s = false` opens the callback and %s starts true", core.ExprStr(u.X), core.ExprStr(u.X), core.ExprStr(u.X))
-									return true
+			if why, ok := w.separatorIdiom(fl.Body.List, fd); ok {
+				o.Auto("%s opens the callback", why)
+				return true
+			}
+			// the idiom kept in a closure made once per container: `next := enc.helper()` before the
+			// iteration and `next()` as the callback's first statement, the helper returning
+			// `func() { if !first { fieldSep() }; first = false }` over its own `first := true`
+			if len(fl.Body.List) >= 1 {
+				if es, ok := fl.Body.List[0].(*ast.ExprStmt); ok {
+					if c, ok := es.X.(*ast.CallExpr); ok && len(c.Args) == 0 {
+						if id, ok := core.Unparen(c.Fun).(*ast.Ident); ok {
+							if def := w.singleDef(fd, w.info.Uses[id]); def != nil {
+								if hc, ok := core.Unparen(def).(*ast.CallExpr); ok {
+									if fn := core.CalleeFunc(w.info, hc); fn != nil && fn.Pkg() == w.pk.Types {
+										if hd := core.DeclOf(w.pk, fn.Origin()); hd != nil && hd.Body != nil {
+											var lit *ast.FuncLit
+											for _, st := range hd.Body.List {
+												if ret, ok := st.(*ast.ReturnStmt); ok && len(ret.Results) == 1 {
+													lit, _ = core.Unparen(ret.Results[0]).(*ast.FuncLit)
+												}
+											}
+											if lit != nil && len(lit.Body.List) == 2 {
+												if why, ok := w.separatorIdiom(lit.Body.List, hd); ok {
+													o.Auto("the callback starts with %s(), made by %s once per container: %s", id.Name, hd.Name.Name, why)
+													return true
+												}
+											}
+										}
+									}
 								}
 							}
 						}
@@ -902,6 +1044,59 @@ func (w *wireCtx) ruleW4() {
 		})
 	}
 	r.Floor("R-WIRE/W4", 7, "4 open/close pairs + 3 container callbacks")
+}
+
+// separatorIdiom: the statement list starts with `if !flag { fieldSep() }; flag = false`
+// and flag is defined as true in the given declaration.
+func (w *wireCtx) separatorIdiom(list []ast.Stmt, scope *ast.FuncDecl) (string, bool) {
+	if len(list) < 2 {
+		return "", false
+	}
+	ifs, ok1 := list[0].(*ast.IfStmt)
+	as, ok2 := list[1].(*ast.AssignStmt)
+	if !ok1 || !ok2 || ifs.Else != nil || len(ifs.Body.List) != 1 {
+		return "", false
+	}
+	u, ok := core.Unparen(ifs.Cond).(*ast.UnaryExpr)
+	if !ok || u.Op != token.NOT {
+		return "", false
+	}
+	es, ok := ifs.Body.List[0].(*ast.ExprStmt)
+	if !ok {
+		return "", false
+	}
+	c, ok := es.X.(*ast.CallExpr)
+	if !ok || w.encCall(c) != "fieldSep" || len(as.Lhs) != 1 || core.ExprStr(as.Lhs[0]) != core.ExprStr(u.X) || core.ExprStr(as.Rhs[0]) != "false" {
+		return "", false
+	}
+	if !w.flagStartsTrue(scope, u.X) {
+		return "", false
+	}
+	return fmt.Sprintf("`if !%s { fieldSep() }; %s = false` with %s starting true", core.ExprStr(u.X), core.ExprStr(u.X), core.ExprStr(u.X)), true
+}
+
+// singleDef: the one defining expression of a local in fd, or nil.
+func (w *wireCtx) singleDef(fd *ast.FuncDecl, obj types.Object) ast.Expr {
+	if obj == nil {
+		return nil
+	}
+	var def ast.Expr
+	n := 0
+	ast.Inspect(fd.Body, func(nd ast.Node) bool {
+		if as, ok := nd.(*ast.AssignStmt); ok && len(as.Lhs) == len(as.Rhs) {
+			for i, l := range as.Lhs {
+				if li, ok := l.(*ast.Ident); ok && (w.info.Defs[li] == obj || w.info.Uses[li] == obj) {
+					n++
+					def = as.Rhs[i]
+				}
+			}
+		}
+		return true
+	})
+	if n == 1 {
+		return def
+	}
+	return nil
 }
 
 func containsReturn(n ast.Node) bool {
